@@ -354,7 +354,8 @@ def eval_diagram_properties(results, want):
                     if not I.notimp and c["depth"] != len(c["path"]):
                         fails.append(("C08", "i-exact", "cut-set node %s: depth differs from the number of decisions on its path" % c, ctx))
                     if c["depth"] <= k or (c["depth"] == k and c["state"] == [b]):
-                        fails.append(("C08", "ii-progress", "cut-set node %s is not strictly deeper than the root sub-problem (depth %d)" % (c, k), ctx))
+                        fails.append(("C08", "ii-progress", "cut-set node %s is not strictly deeper than the root sub-problem (depth %d)" % (c, k), ctx,
+                                      "pooled-longarc-subproblem-in-own-cutset" if (flv == 2 and I.notimp) else None))
                     cstar = Oracle.num(orc.get(ii, q_from(c["depth"], c["value"], c["state"])))
                     if cstar is not None and cstar > lb and c["ub"] < cstar:
                         fails.append(("C08", "iii-bound", "cut-set node %s has ub %d below its best completion %d (beats incumbent %d)" % (c, c["ub"], cstar, lb), ctx))
@@ -367,6 +368,7 @@ def eval_diagram_properties(results, want):
                         if val > lb and (ev is None or val > ev):
                             stats["completions_checked_for_cover"] += 1
                             sts = states_along(I, meta["root"], dec_list(ds))
+                            if sts is not None: sts = [(k, b)] + sts      # the root sub-problem itself may be handed out (pooled, finding D1)
                             if sts is None or not any(s in seen_cover for s in sts):
                                 fails.append(("C08", "iv-cover", "completion %s (value %d) beats incumbent %d and best exact value %s but passes through no cut-set node" % (ds, val, lb, ev), ctx))
                                 break
@@ -385,16 +387,23 @@ def eval_diagram_properties(results, want):
 
 
 # ================================================================================ the checks
-PINNED = {   # theorem names pinned per property file (filled in as the proofs land)
-    "C06": [], "C07": [], "C08": [], "C12": [], "C20": [],
-    "C13": ["C13_times_debug_nonzero", "C13_times_release_nonzero", "C13_times_release_stays_usize", "C13_divby_nonzero"],
+PINNED = {   # theorem names pinned per property file
+    "C06": ["C06_best_exact_solution_is_genuine", "C06_exact_claim_implies_clean_chain"],
+    "C07": ["C07_best_solution_replays_to_best_value", "C07_replay_is_the_true_sum_without_overflow", "C07_compile_never_uses_dangling_ids"],
+    "C08": ["C08_cutset_nodes_are_exact"],
+    "C12": ["C12_callback_protocol", "C12_relax_only_on_genuine_arcs", "C12_next_variable_depths"],
+    "C20": ["C20_as_graphviz_total", "C20_layers_never_empty"],
+    "C13": ["C13_restricted_width", "C13_relaxed_width_clean", "C13_times_debug_nonzero", "C13_times_release_nonzero",
+            "C13_times_release_stays_usize", "C13_divby_nonzero"],
 }
 OPEN = {
     "C06": ["C06_bound (relaxed best value dominates every completion beating the incumbent)",
-            "C06_exact_truthful(b) (exact relaxed diagram yields the sub-problem optimum)"],
-    "C07": ["C07_restricted_exact / C07_exact_mode (optimality of untruncated / exact-mode diagrams)"],
-    "C08": ["C08_ub_valid (iii)", "C08_cover (iv)"],
-    "C12": [], "C13": [], "C20": [],
+            "C06_exact_truthful(b) (exact relaxed diagram yields the sub-problem optimum)", "pooled flavour"],
+    "C07": ["C07_restricted_exact / C07_exact_mode (optimality of untruncated / exact-mode diagrams)", "pooled flavour"],
+    "C08": ["C08_progress (ii) for the clean flavours", "C08_ub_valid (iii)", "C08_cover (iv)", "pooled flavour ((ii) is false there: finding D1)"],
+    "C12": ["clause `for_each_in_domain only for states of that layer` (the expanded list may contain the freshly merged state)"],
+    "C13": ["relaxed width bound for the pooled flavour (needs the every-state-impacted hypothesis)"],
+    "C20": ["C20_wellformed / C20_faithful as theorems about the string printer (validated by string equality + DOT reader)"],
 }
 
 
@@ -566,7 +575,7 @@ def check_diagram(pid, tier):
         import check_simple
         check_simple.c13_combinators(chk, tier)
     for f in fails:
-        chk.violation("property", "%s [%s]: %s" % (f[0], f[1], f[2]), f[3])
+        chk.violation("property", "%s [%s]: %s" % (f[0], f[1], f[2]), f[3], cls=(f[4] if len(f) > 4 else None))
     for (I, meta, li, lm, case, why) in dis[:50]:
         if not fails:
             chk.violation("unproved", "correspondence MddModel vs %s differs on observable `%s` (the property's clauses hold on this and on all %d other cases explored)"
